@@ -1522,6 +1522,38 @@ def c01(ctx):
         n = 'S%d' % (k + 1)
         body = tmpl.format(N=n)
         items.append(('#[derive(Educe)] ' + body, '', body))
+    # field types of every syntactic class (typed fragment of EduceTypes.tla): educing exactly the traits the type
+    # implements must be accepted and compile cleanly
+    st2 = dict(ctx.coverage)
+    typed = model_check_tagged(ctx, [{'module': 'EduceTypes', 'cfg': 'MC_Typed_quick.cfg' if quick else 'MC_Typed_thorough.cfg', 'workers': 4, 'timeout': 1800}], 'TYTYPED')
+    ctx.coverage['states'] += st2['states']
+    ctx.coverage['transitions'] += st2['transitions']
+    ctx.coverage['mc_runs'] = st2['mc_runs'] + ctx.coverage['mc_runs']
+    n_typed = 0
+    typed_of = {}
+    import re as _re
+    for k, rec in enumerate(typed):
+        ty = rec['ty']
+        traits = [t for t in ('Debug', 'Clone', 'Copy', 'PartialEq', 'Eq', 'PartialOrd', 'Ord', 'Hash', 'Default') if rec['sup'].get(t)]
+        gens = []
+        if "'a" in ty:
+            gens.append("'a")
+        if _re.search(r'\bT\b', ty):
+            gens.append("T: 'static")
+        g = '<%s>' % ', '.join(gens) if gens else ''
+        shape = k % 3
+        n = 'Y%d' % (k + 1)
+        if shape == 0:
+            body = '#[educe(%s)] struct %s%s { a: u8, f: %s }' % (', '.join(traits), n, g, ty)
+        elif shape == 1:
+            body = '#[educe(%s)] struct %s%s(u8, %s);' % (', '.join(traits), n, g, ty)
+        else:
+            dv = '#[educe(Default)] ' if 'Default' in traits else ''
+            body = '#[educe(%s)] enum %s%s { V1 { a: u8, f: %s }, V2(%s), %sV3 }' % (', '.join(traits), n, g, ty, ty, dv)
+        # (parentheses around a type are the user's own style; the attribute sits on the type only)
+        items.append(('#[allow(unused_parens)] #[derive(Educe)] ' + body, '', body))
+        typed_of[len(items) - 1] = rec
+        n_typed += 1
     # in-process: was the request accepted at all?
     exe = xchan.build(ctx)
     raw = xchan.expand(exe, [{'id': i, 'text': t[2]} for i, t in enumerate(items)])
@@ -1529,7 +1561,8 @@ def c01(ctx):
     # real compiler
     import cases
     prelude = ('#![allow(dead_code)]\nuse educe::Educe; #[allow(unused_imports)] use probes::*; #[allow(unused_imports)] use ::core::marker::PhantomData; '
-               'pub trait Bnd {} pub trait Usr {} pub trait Cst {} impl Bnd for u8 {} impl Usr for u8 {}')
+               'pub trait Bnd {} pub trait Usr {} pub trait Cst {} impl Bnd for u8 {} impl Usr for u8 {} '
+               '#[derive(Debug, Clone, Copy, PartialEq, Eq, PartialOrd, Ord, Hash, Default)] pub struct Bb<X>(pub X);')
     ok, per, stderr = rpipe.compile_only(ctx, 'C01', prelude, ['mod m%d { use super::*; %s %s }' % (i, item, extra) for i, (item, extra, _) in enumerate(items)])
     trace = os.path.join(ctx.workdir, 'ktrace.ndjson')
     with open(trace, 'w') as f:
@@ -1544,6 +1577,17 @@ def c01(ctx):
         i = ln - 1
         src = items[i][0]
         cfg = renders[i].cfg if i < len(renders) else {'special': src}
+        if i in typed_of:
+            # identified by the compiler's complaint and (for errors) the leaf type, not by every wrapper around it
+            codes = [(c, typed_of[i]['leaf']) for c in sorted(set(per[i]['errors']))] + [(c, '*') for c in sorted(set(per[i].get('wcodes', [])))]
+            if accepted[i]['outcome'] != 'ok':
+                codes = [('refused', typed_of[i]['leaf'])]
+            for code, leaf in codes:
+                ctx.violation({'kind': 'typed-field', 'code': code, 'leaf': leaf},
+                              {'what': 'educing exactly the traits this field type implements is refused, or the expansion does not compile without errors and warnings',
+                               'source': src, 'type': typed_of[i]['ty'], 'in_process': {'outcome': accepted[i]['outcome'], 'err': accepted[i].get('err')},
+                               'rustc': per[i]['msgs'][:5]})
+            continue
         ctx.violation({'kind': 'accepted-but-not-clean' if accepted[i]['outcome'] == 'ok' else 'documented-form-refused', 'cfg': cfg},
                       {'what': 'an acceptable derive request was refused, or its expansion does not compile without errors and warnings',
                        'source': src, 'in_process': {'outcome': accepted[i]['outcome'], 'err': accepted[i].get('err')},
